@@ -190,11 +190,15 @@ def run_pair(v, pid, tier, seed, replay_steps=None):
             raise vlib.MachineryError("PairEnv produced no scripts")
         # hand-written: the nested-call-into-a-closing-endpoint schedules (DESIGN.md section 9 lead 9)
         rows += [{"id": "pair.lead9.client", "steps": [["ccall", "k1", "nest"], ["cclose", "c1"], ["rel", "k1", "nest"], ["swait", "sw"]]},
-                 {"id": "pair.closeDeliversResponse", "steps": [["ccall", "k1", "nest"], ["rel", "k1", "nest"], ["sclose", "s1"], ["cwait", "cw"]]}]
+                 {"id": "pair.closeDeliversResponse", "steps": [["ccall", "k1", "nest"], ["rel", "k1", "nest"], ["sclose", "s1"], ["cwait", "cw"]]},
+                 # both read loops have read the peer's call(s) but not yet accepted them when both sides close
+                 {"id": "pair.crossingCalls1.bothClose", "steps": [["park"], ["ccall", "k1", "plain"], ["scall", "q1"], ["cclose", "c1"], ["sclose", "s1"], ["unpark"]]},
+                 {"id": "pair.crossingCalls2.bothClose", "steps": [["park"], ["ccall", "k1", "plain"], ["scall", "q1"], ["ccall", "k2", "plain"], ["scall", "q2"], ["cclose", "c1"], ["sclose", "s1"], ["unpark"]]},
+                 {"id": "pair.crossingCalls2.clientCloses", "steps": [["park"], ["ccall", "k1", "plain"], ["scall", "q1"], ["ccall", "k2", "plain"], ["scall", "q2"], ["cclose", "c1"], ["unpark"], ["swait", "sw"]]}]
     vlib.write_ndjson(scen, rows)
     obs = os.path.join(out, "pair_obs.ndjson")
     rc, gout, wall = vlib.go_test("mcp", "^TestVerif_ConnPair$", ["mcp/conn_harness_test.go", "mcp/conn_pair_test.go"],
-                                  env={"VERIF_IN": scen, "VERIF_OUT": obs, "VERIF_SEED": seed, "VERIF_CS": "0"}, timeout=2400)
+                                  env={"VERIF_IN": scen, "VERIF_OUT": obs, "VERIF_SEED": seed, "VERIF_CS": "0"}, timeout=600)
     vlib.go_must_build(rc, gout, pid + " pair")
     orows = vlib.read_ndjson(obs) if os.path.exists(obs) else []
     if rc != 0 and not any(r.get("ev") == "panic" for r in orows):
